@@ -380,6 +380,42 @@ def c03_specs(r, tm_tokens):
     return qs
 
 
+def first_due_specs(r, tm_tokens):
+    """the due time right after a successful scheduling call is the one the property names: start + T (start itself
+    with delay=False) for cyclic jobs, the least occurrence strictly after the reference for single clock-time /
+    weekday timings, the exact instant for one-shots - the reference being the given start, else the creation time"""
+    qs = []
+    for i, (o, ob) in enumerate(zip(r["scn"]["ops"], r["obs"])):
+        if o["op"] != "sch" or ob["res"][0] != "j":
+            continue
+        k = ob["res"][1]
+        if k not in ob["jobs"]:
+            continue
+        due = ob["jobs"][k][0]
+        # the observation is taken when the loop is idle again: a job that was due at once has already started -
+        # its first due time is then the one its first run belonged to
+        started = [e[3] for e in ob.get("events", []) if e[1] == k and e[2] == "S"]
+        if started:
+            due = started[0]
+        call, ts = o["call"], o["timings"]
+        ref = ref_of(o)
+        if call == 0:
+            T = ts[0][1]
+            want = ref + (T if o.get("delay", True) else 0)
+            qs.append((f"spec eq {want} {due}", {"what": "aio first due of a cyclic job", "key": k, "op": i}))
+        elif call in (1, 2, 3, 4) and len(ts) == 1 and o.get("delay", True):
+            qs.append((f"spec least {tm_tokens(call, ts[0])} {ref} {due}", {"what": "aio first due = least occurrence after the reference", "key": k, "op": i}))
+        elif call == 5:
+            t = ts[0]
+            if t[0] == "d":
+                qs.append((f"spec eq {t[1] - (t[2] or 0)} {due}", {"what": "aio once_datetime", "key": k}))
+            elif t[0] == "c":
+                qs.append((f"spec eq {o['clock'] + t[1]} {due}", {"what": "aio once_timedelta", "key": k}))
+            elif t[0] in ("t", "w"):
+                qs.append((f"spec least {tm_tokens(3 if t[0] == 't' else 4, t)} {o['clock']} {due}", {"what": "aio once_clock/weekday", "key": k}))
+    return qs
+
+
 def classes(r):
     from .props import c18
     return ["front:asyncio"] + c18.classes(r)
